@@ -9,6 +9,7 @@ package mempool
 
 import (
 	"sort"
+	"time"
 
 	"github.com/lianxiangcloud/linkchain/libs/clist"
 	"github.com/lianxiangcloud/linkchain/libs/common"
@@ -117,3 +118,64 @@ func VerifC15SeamActive(mem *Mempool) bool {
 	mem.proxyMtx.Unlock()
 	return VerifC15OrderCalls > before
 }
+
+// ---- clock seam: the age of pool entries is an input of the environment ---------------------------------------------
+//
+// The pool reads the wall clock in two places of Update: filterTxs drops an entry of goodTxs / utxoTxs / specGoodTxs whose
+// goodTxBeats record is GoodTxDropTime old, recheckSpecTxs drops a special transaction whose mempoolTx.addtime is
+// config.Lifetime old. (The third one, the eviction of future queues by mem.beats, runs only on the ticker of loop() and is
+// not reachable from here.) The harness never sleeps: it moves these records into the past.
+
+// VerifC15Age shifts the admission records of the entry with this hash back by d. false: no list holds it.
+func VerifC15Age(mem *Mempool, hash common.Hash, d time.Duration) bool {
+	mem.proxyMtx.Lock()
+	defer mem.proxyMtx.Unlock()
+	for _, l := range []*clist.CList{mem.goodTxs, mem.utxoTxs, mem.specGoodTxs} {
+		for e := l.Front(); e != nil; e = e.Next() {
+			m := e.Value.(*mempoolTx)
+			if m.tx.Hash() != hash {
+				continue
+			}
+			if t, ok := mem.goodTxBeats.Load(hash); ok {
+				mem.goodTxBeats.Store(hash, t.(time.Time).Add(-d))
+			}
+			if m.addtime != nil {
+				t := m.addtime.Add(-d)
+				m.addtime = &t
+			}
+			return true
+		}
+	}
+	return false
+}
+
+// VerifC15AgeInfo: how old the pool believes an entry is.
+type VerifC15AgeInfo struct {
+	Beat    time.Duration // according to goodTxBeats (what filterTxs compares with GoodTxDropTime)
+	Add     time.Duration // according to mempoolTx.addtime (what recheckSpecTxs compares with config.Lifetime)
+	HasBeat bool
+	HasAdd  bool
+}
+
+// VerifC15Ages returns the age records of every entry of the three lists.
+func VerifC15Ages(mem *Mempool) map[common.Hash]VerifC15AgeInfo {
+	out := map[common.Hash]VerifC15AgeInfo{}
+	now := time.Now()
+	for _, l := range []*clist.CList{mem.goodTxs, mem.utxoTxs, mem.specGoodTxs} {
+		for e := l.Front(); e != nil; e = e.Next() {
+			m := e.Value.(*mempoolTx)
+			var a VerifC15AgeInfo
+			if t, ok := mem.goodTxBeats.Load(m.tx.Hash()); ok {
+				a.Beat, a.HasBeat = now.Sub(t.(time.Time)), true
+			}
+			if m.addtime != nil {
+				a.Add, a.HasAdd = now.Sub(*m.addtime), true
+			}
+			out[m.tx.Hash()] = a
+		}
+	}
+	return out
+}
+
+// VerifC15Lifetime is config.Lifetime of this pool.
+func VerifC15Lifetime(mem *Mempool) time.Duration { return mem.config.Lifetime }
